@@ -7,7 +7,8 @@ spec -> code: a really built and signed event of every shape and room version is
 enumerated subset T of {change / add a content key outside the keep-list, change a kept content key, change content.third_party_invite.signed, add a top-level
 key, change origin, change depth, change unsigned, add age_ts, add outlier + destinations, set event_id} x hash mode
 {kept, garbage, re-hashed by the forger, removed, a second algorithm entry added next to sha256}, parsed as untrusted JSON and compared with the specification.
-Two wire dimensions on top: the NAMES of the keys stripped on receipt written with a \\uXXXX escape (the same name: the outcome of the
+Three wire dimensions on top: a member whose name differs from a protected name only in letter case (or by a non-ASCII letter
+that folds to the ASCII one) added next to the genuine member - another name, hence an unknown top-level key no accessor reads; the NAMES of the keys stripped on receipt written with a \\uXXXX escape (the same name: the outcome of the
 plain spelling) or in other letter case (another name: an unknown top-level key); and a top-level member written TWICE
 (content, type, depth, state_key, event_id, hashes, unsigned, age_ts; the smuggled copy before / after the genuine one; the
 hash as built, the forger's for the smuggled copy, or taken over the text with both copies): the parser must hand out one
@@ -25,8 +26,15 @@ def run(ctx):
         "a garbage hash is realised as another well-formed hash, an empty string, a non-base64 string or a `hashes` "
         "object without sha256 (all well-typed JSON: malformed `hashes` values that make the parser fail are not generated)",
         "every record parses the tampered event, then the untampered one, the tampered one again and the untampered one again in one process: the results must not depend on what was parsed before",
-        "no top-level key differing from a protected key only in case (open C05 finding; this excludes `Event_ID`, event_id being "
-        "on every keep list - the other keys stripped on receipt are enumerated in other letter case); no keys starting with `_`",
+        "no keys starting with `_`",
+        "variants of the protected names: every name on a keep list (event_id, type, room_id, sender, state_key, content, hashes, "
+        "signatures, depth, prev_events, prev_state, auth_events, origin, origin_server_ts, membership) and redacts, written in other "
+        "letter case (first / every / last letter in upper case, rotating) or - where it has an s or a k - with U+017F / U+212A in its "
+        "place (as UTF-8 or as a \\u escape), is ANOTHER name: one such member, with a value of the member's type, is added right "
+        "before / after the genuine member (alone where the event has none) x hash {kept, the forger's}: an unknown top-level key "
+        "like any other (the tampering top_add under another name), and the accessors report the genuine members; %s" % (
+            "all 16 room versions x all shapes" if ctx.tier == "thorough" else
+            "room versions 1, 3, 6, 10, 11, 12, org.matrix.msc4014 x 6 shapes"),
         "spelling dimension: each key stripped on receipt (unsigned, age_ts, outlier + destinations, event_id in room versions 3+) alone "
         "and next to a forged content key%s, its name with one character written as a \\uXXXX escape (position and hex-digit case "
         "rotate) or in other letter case, x hash {kept, garbage, the forger's}, on the event as built; %s" % (
@@ -50,7 +58,7 @@ def run(ctx):
         "every behaviour of the tamper family of EventIdentity.tla: 16 room versions x 12 event shapes x optional "
         "operation before (%s; after a Redact() only tamper sets of at most one element) x tamper sets of at most %d or at least all-but-one applicable elements out of 11 x 5 "
         "hash modes; plus the spelling and the multiplicity dimension (see the assumptions); distinct = distinct (ID format, redaction algorithm, type, tamper set, hash mode, redacted, "
-        "same-ID, valid signatures, name spelling; for a member written twice: member, position, spelling, hash mode, outcome)" % (("none / second signature / Redact", 2) if ctx.tier == "quick"
+        "same-ID, valid signatures, name spelling, name variant and its position; for a member written twice: member, position, spelling, hash mode, outcome)" % (("none / second signature / Redact", 2) if ctx.tier == "quick"
                                          else ("none / second signature / SetUnsigned / Redact", 3)))
     fams = ["tamper"] if ctx.tier == "quick" else ["tamper", "tamperfull"]
     ctx.notes["constants"] = ", ".join("EventIdentity_gen_%s_%s.cfg" % (f, ctx.tier) for f in fams)
@@ -73,9 +81,16 @@ def run(ctx):
             dups = set((x["m"], x["pos"]) for x in r.records if x["fam"] == "dup")
             wantd = set((m, pos) for m in ("content", "type", "depth", "state_key", "event_id", "hashes") for pos in ("before", "after")) \
                 | {("unsigned", "before"), ("age_ts", "before")}
-            if want - spelt or wantd - dups:
-                raise MachineryError("tamper family lost wire dimensions: spellings %s, duplicated members %s"
-                                     % (sorted(want - spelt), sorted(wantd - dups)))
+            variants = set((x["vk"], x["vs"], x["vpos"], x["hm"]) for x in r.records if x["fam"] == "tamper" and x["vk"])
+            names = ("event_id", "type", "room_id", "sender", "state_key", "content", "hashes", "signatures", "depth", "prev_events",
+                     "prev_state", "auth_events", "origin", "origin_server_ts", "membership", "redacts")
+            wantv = set((k, "case", "before", hm) for k in names for hm in ("keep", "rehash")) \
+                | set((k, "case", "after", hm) for k in names if k not in ("membership", "redacts") for hm in ("keep", "rehash")) \
+                | set((k, "fold", "after", hm) for k in ("sender", "hashes", "signatures", "prev_events", "auth_events", "origin_server_ts")
+                      for hm in ("keep", "rehash"))
+            if want - spelt or wantd - dups or wantv - variants:
+                raise MachineryError("tamper family lost wire dimensions: spellings %s, duplicated members %s, name variants %s"
+                                     % (sorted(want - spelt), sorted(wantd - dups), sorted(wantv - variants)[:8]))
         ctx.replay_and_compare("c04", r.records, pkg=PKG)
         del r
     record_and_validate(ctx, "c04", 3000 if ctx.tier == "quick" else 60000, "C04")
